@@ -59,4 +59,4 @@ theorem rootOf_inj (hs : H.Sound) (L : Nat) (S S' : List (Key × VH))
     (hc : Canon L 0 S) (hc' : Canon L 0 S') (h : nodeAt H L 0 S = nodeAt H L 0 S') : S = S' :=
   nodeAt_inj H hs L 0 S S' hc hc' h
 end Nomt
-#print axioms Nomt.rootOf_inj
+
